@@ -11,7 +11,7 @@ BK-9   same-name shape functions of the FFT64 and NTT120 families bound their wo
 BK-8   the AVX kernels of wrapping integer products use a full-width multiply
 """
 from . import facts
-from .c11 import wr1, wr2, wr2b, wr4, wr7
+from .c11 import wr1, wr2, wr2b, wr2c, wr4, wr7
 
 C07_FILES = ("reference/fft64/vec_znx_dft.rs", "reference/fft64/svp.rs", "reference/fft64/vmp.rs", "reference/fft64/convolution.rs",
              "reference/ntt120/vec_znx_dft.rs", "reference/ntt120/svp.rs", "reference/ntt120/vmp.rs", "reference/ntt120/convolution.rs")
@@ -44,6 +44,8 @@ def run(res, tier):
         res.floor("WR-1", "C07 overwrite-type shape functions", n_ow, 14)
         n2, sites = wr2(p, res, restrict=in_c07)
         res.floor("WR-2", "C07 shape functions with column accessors", n2, 30)
+        n2c = wr2c(p, res)
+        res.floor("WR-2", "raw column offsets", n2c, 2)
         n2b = wr2b(p, res)
         res.floor("WR-2", "raw-slice writers of a result column", n2b, 1)
         n4 = wr4(p, res)
